@@ -117,7 +117,7 @@ func execLogger(line string) (string, bool) {
 
 func genC20(c *Ctx) {
 	i := 0
-	for k := 0; k < c.scale(1500, 40000); k++ {
+	for k := 0; k < c.scale(1500, 40000) && !c.stop(); k++ {
 		i++
 		r := c.rng(i)
 		n := 1 + r.Intn(64)
@@ -164,7 +164,7 @@ func genC20(c *Ctx) {
 		c.emit(line, obs, true)
 	}
 	// concurrent producers
-	for k := 0; k < c.scale(150, 4000); k++ {
+	for k := 0; k < c.scale(150, 4000) && !c.stop(); k++ {
 		i++
 		r := c.rng(i)
 		n := 1 + r.Intn(64)
